@@ -290,6 +290,20 @@ def main():
             for nspin in (1, 2):
                 c = {"ver": "v1", "mode": mode, "nspin": nspin, "evals": ["rbf"], "mul": mul, "add": "zero", "cut": "below_all"}
                 check_cfg(ck, c, rng)
+    # every libxc-backed baseline code of the live tables (incl. the same-spin / opposite-spin splits), in both roles
+    live = []
+    for tab in ("LDA_CODES", "GGA_CODES", "MGGA_CODES", "SS_GGA_CODES", "OS_GGA_CODES"):
+        live += sorted(getattr(baselines, tab, {}).keys())
+    for code in live:
+        MUL2[code] = code
+        ADD2[code] = code
+        for role in ("mul", "add"):
+            for mode in ("SEP", "NPOL"):
+                for nspin in (1, 2):
+                    c = {"ver": "v2", "mode": mode, "nspin": nspin, "evals": ["rbf"], "mul": code if role == "mul" else "gga_x",
+                         "add": code if role == "add" else "none", "cut": "below_all"}
+                    check_cfg(ck, c, rng)
+    ck.extra["libxc_codes_checked"] = live
     ck.assumptions = ["features in the admissible domain, away from non-smooth loci (Chachiyo s2<1e-8 branch, points within a FD step of rhocut)",
                       "NNEvaluator (torch) absent", "v2 'one' baseline stands for GGA_X_PBE_SOL, 'zero' for LDA_C_PW_MOD"]
     return ck.finish()
